@@ -194,16 +194,19 @@ class Outcome:
         ev["coverage"]["unconfirmed_counterexamples"] = self.unconfirmed
         ev["coverage"]["inconclusive"] = self.inconclusive
         json.dump(ev, open(os.path.join(evdir, self.pid + ".json"), "w"), indent=1)
-        for k in self.known:
-            log("KNOWN-FINDING: property=%s %s" % (self.pid, k))
-        for u in self.unconfirmed:
-            log("UNCONFIRMED: property=%s %s" % (self.pid, u))
-        for i in self.inconclusive:
-            log("INCONCLUSIVE: property=%s %s" % (self.pid, i))
         for what, path in self.violations[:8]:
             log("VIOLATION property=%s replay=%s  (%s)" % (self.pid, path, what))
         if len(self.violations) > 8:
             log("... and %d more violations (see evidence)" % (len(self.violations) - 8))
+        for k in self.known:
+            log("KNOWN-FINDING: property=%s %s" % (self.pid, k))
+        seen_u = set()
+        for u in self.unconfirmed:
+            if u not in seen_u and len(seen_u) < 6:
+                log("UNCONFIRMED: property=%s %s" % (self.pid, u))
+            seen_u.add(u)
+        for i in self.inconclusive[:10]:
+            log("INCONCLUSIVE: property=%s %s" % (self.pid, i))
         if self.engine_errors:
             for e in self.engine_errors:
                 log("ENGINE-ERROR: property=%s %s" % (self.pid, e))
@@ -580,11 +583,57 @@ def c16(tier):
 
 
 def c14(tier):
-    jobs = [T("transformer", "VerifC14_CmpPair", {"N": W(tier, 2, 3)}), T("transformer", "VerifC14_CmpTriple", {"N": W(tier, 1, 2)})]
-    out = engine_a_check("C14", tier, jobs, {"VerifC14_CmpPair": ["less", "greater", "equal"], "VerifC14_CmpTriple": ["chain"]},
-                         ["names/modules/files over the two-letter alphabet {a,b} (the comparator only compares bytes)"], "",
-                         bounds={"CmpPair": "two keys, every string of length <= %d" % W(tier, 2, 3), "CmpTriple": "three keys, every string of length <= %d" % W(tier, 1, 2)})
+    n = W(tier, 1, 2)
+    jobs = [T("transformer", "VerifC14_CmpPair", {"N": W(tier, 2, 3)}), T("transformer", "VerifC14_CmpTriple", {"N": W(tier, 1, 2)}),
+            T("transformer", "VerifC14_Canonical", {"N": n}, sched="all", prune=True),
+            T("transformer", "VerifC14_Inert", {"N": n}),
+            T("transformer", "VerifC02_Names", {"N": 2}, sched="all", prune=True)]
+    out = engine_a_check("C14", tier, jobs, {"VerifC14_CmpPair": ["less", "greater", "equal"], "VerifC14_CmpTriple": ["chain"],
+                                             "VerifC14_Canonical": ["printed"], "VerifC14_Inert": ["compared"], "VerifC02_Names": ["printed"]},
+                         ["names/modules/files over small alphabets (the code only compares and copies bytes)",
+                          "JSON key order reduces to map order (protojson not encoded)",
+                          "file/module names containing a line break or ' #' are outside (property)"], "",
+                         bounds={"CmpPair": "two keys, every string of length <= %d" % W(tier, 2, 3), "CmpTriple": "three keys, every string of length <= %d" % W(tier, 1, 2),
+                                 "Canonical/Inert": "modular model: 2 types, 2 relations, 2 conditions x 4 parameters, all names symbolic of length <= %d, every iteration order of every map in jsontodsl.go (state-hash pruned), both type orders, both option values" % n})
     out.finish()
+
+
+def c02(tier):
+    jobs = [T("transformer", "VerifC02_Shapes", {"NODES": W(tier, 5, 6), "DEPTH": W(tier, 2, 3), "WIDTH": 3}),
+            T("transformer", "VerifC02_Names", {"N": W(tier, 2, 3)})]
+    out = engine_a_check("C02", tier, jobs, {"VerifC02_Shapes": ["accepted", "rejected", "hoisted", "restrictions-dropped"], "VerifC02_Names": ["printed"]},
+                         ["the parse-back of the produced text is decided on the text (canonical rendering of the normalised model written from the property); the listener half is part of C01",
+                          "a relation with a direct assignment has >= 1 type restriction; names are identifiers"], "",
+                         bounds={"Shapes": "every rewrite tree with <= %d nodes, depth <= %d, <= 3 operands per operator, 4 restriction lists" % (W(tier, 5, 6), W(tier, 2, 3)),
+                                 "Names": "type/relation/sibling names symbolic, length <= %d" % W(tier, 2, 3)})
+    out.finish()
+
+
+def c13(tier):
+    jobs = [T("transformer", "VerifC13_PrinterFrozen", {"N": W(tier, 1, 2)}),
+            T("transformer", "VerifC02_Shapes", {"NODES": 4, "DEPTH": 2, "WIDTH": 3}),
+            T("transformer", "VerifC08_PrinterDegenerate", {"NODES": 3, "DEPTH": 2})]
+    out = engine_a_check("C13", tier, jobs, {"VerifC13_PrinterFrozen": ["printed"], "VerifC02_Shapes": ["accepted"], "VerifC08_PrinterDegenerate": ["accepted"]},
+                         ["data races, goroutines and the parser's prediction-cache history are outside (not applicable to this technique)",
+                          "decided: no store into anything reachable from the argument (frozen-object monitor) and no store into a package-level variable of the repository"], "",
+                         bounds={"printer": "modular models with symbolic names (so that the sort really swaps), all C02 shapes <= 4 nodes, degenerate protos"})
+    out.finish()
+
+
+def c08(tier):
+    jobs = [T("transformer", "VerifC08_PrinterDegenerate", {"NODES": W(tier, 4, 5), "DEPTH": 2}),
+            T("transformer", "VerifC08_ConditionsDegenerate"),
+            T("transformer", "VerifC15_Manifest", {"K": 2})]
+    out = engine_a_check("C08", tier, jobs, {"VerifC08_PrinterDegenerate": ["accepted", "rejected"], "VerifC08_ConditionsDegenerate": ["accepted", "rejected"], "VerifC15_Manifest": ["accepted", "rejected"]},
+                         ["arbitrary bytes through the ANTLR lexer/parser, protojson and yaml.v3 and the complexity claim are outside (not encoded)",
+                          "decided: no Go run-time panic on any explored path of the hand-written code (panic monitor)"], "",
+                         bounds={"printer": "degenerate rewrite trees <= %d nodes (nil children, unset oneofs, operators without operands), nil metadata/restrictions/type definitions, 7 degenerate condition shapes" % W(tier, 4, 5),
+                                 "fga.mod": "arbitrary yaml node kinds (stub)"})
+    out.finish()
+
+
+def _unused():
+    pass
 
 
 def c03(tier):
@@ -595,7 +644,7 @@ def c03(tier):
     out.finish()
 
 
-REGISTRY = {"C15": c15, "C18": c18, "C16": c16, "C14": c14, "C03": c03}
+REGISTRY = {"C15": c15, "C18": c18, "C16": c16, "C14": c14, "C03": c03, "C02": c02, "C13": c13, "C08": c08}
 
 
 def main():
